@@ -155,6 +155,8 @@ fn real_main() {
                 "C03" => poolgen::gen_c03(seed, tier),
                 "C04" => poolgen::gen_c04(seed, tier),
                 "C06" => poolgen::gen_c06(seed, tier),
+                "C07" => poolgen::gen_c07(seed, tier),
+                "C08" => poolgen::gen_c08(seed, tier),
                 _ => {
                     eprintln!("unknown property {}", id);
                     std::process::exit(2);
